@@ -342,6 +342,38 @@ pub fn run(ctx: &Ctx) -> Result<Ev, String> {
     for r in results {
         total.merge(r?);
     }
+    // length leg: the position after every form must advance by exactly the number of words emitted
+    // (a label placed after the instruction is observed through `.dw label`)
+    for s in spaces.iter() {
+        for i in [0, s.len / 2, s.len - 1] {
+            let c = (s.get)(i);
+            let (line, ops) = render_line(&c, 1);
+            let words = match isa::assemble(&c.m, &ops, s.core, 1) {
+                Verdict::Legal(w) | Verdict::Either(w) => w,
+                Verdict::Illegal => continue,
+            };
+            let mut src = String::new();
+            if let Some(d) = s.device {
+                src.push_str(&format!(".device {}\n", d));
+            }
+            src.push_str(&format!("nop\n{}\nc01_after:\nnop\n.dw c01_after\n", line));
+            let mut expected: Vec<u8> = vec![0, 0];
+            for w in &words {
+                expected.push((*w & 0xff) as u8);
+                expected.push((*w >> 8) as u8);
+            }
+            expected.extend_from_slice(&[0, 0]);
+            let after = 1 + words.len() as u16;
+            expected.push((after & 0xff) as u8);
+            expected.push((after >> 8) as u8);
+            total.eval();
+            total.class("length-leg");
+            let chk = Check::image_code(src.clone(), expected);
+            if let Err(why) = chk.eval() {
+                total.violation(Violation { sig: format!("enc:{}{}:length", c.m, if s.core == Core::Avr8l { ":avr8l" } else { "" }), what: format!("a label after `{}` must be {} word(s) further: {}", line, words.len(), why), replay: chk.to_json() });
+            }
+        }
+    }
     total.extra.insert("forms".into(), json!(spaces.len()));
     Ok(total)
 }
